@@ -40,10 +40,27 @@ def dispatch_table(F, rep, rid, fn_name):
 
 
 def simp(d):
-    """strip list-unwrapping / borrowing from an argument descriptor"""
-    while d and d[0] in ("via", "unwrap"):
-        d = d[2]
+    """strip list-unwrapping / borrowing / Some(..) from an argument descriptor"""
+    while d:
+        if d[0] in ("via", "unwrap"):
+            d = d[2]
+        elif d[0] == "ctor" and isinstance(d[1], str) and d[1].endswith("Option::Some") and len(d) > 2 and d[2]:
+            d = d[2][0]
+        else:
+            break
     return d
+
+
+def alternatives(d):
+    """the alternatives of a descriptor produced by an expanded helper with several returns (None alternatives carry no argument)"""
+    if d and d[0] == "alt":
+        out = []
+        for x in d[1]:
+            if x and x[0] in ("ctor", "def") and isinstance(x[1], str) and x[1].endswith("Option::None"):
+                continue
+            out += alternatives(x)
+        return out
+    return [d]
 
 
 def wrapper_calls(F, fn, first):
@@ -57,13 +74,21 @@ def wrapper_calls(F, fn, first):
         if f in seen or f not in F.hir:
             continue
         seen.add(f)
-        fl = hirflow.Flow(F.hir[f], first_param_desc=first)
+        def helper(callee, _mod=mod):
+            # small same-module helpers that only select / repackage the parameters (extract-function refactorings) are expanded at the call site
+            hh = F.hir.get(callee)
+            if hh is None or not callee.startswith(_mod + "::") or callee.endswith("::get_param") or callee.split("::")[-1].startswith("bif_") or callee.endswith("::evaluate_bif"):
+                return None
+            return hh
+        fl = hirflow.Flow(F.hir[f], first_param_desc=first, inline=helper)
         for callee, args, cond, line, node in fl.calls:
             if not callee:
                 continue
             if callee.startswith(CORE):
-                out.append((callee[len(CORE):], [simp(a) for a in args], cond, line, f))
-            elif callee.startswith(mod + "::") and not callee.endswith("::get_param"):
+                import itertools
+                for combo in itertools.product(*[alternatives(a) for a in args]):
+                    out.append((callee[len(CORE):], [simp(a) for a in combo], cond, line, f))
+            elif callee.startswith(mod + "::") and not callee.endswith("::get_param") and helper(callee) is None:
                 work.append(callee)
     return out
 
